@@ -64,6 +64,27 @@ fn ref_eq_by<T>(a: &[T], b: &[T], f: fn(&T, &T) -> bool) -> bool {
     true
 }
 
+/// inputs on which "lengths first" and "lexicographic" cannot differ: equal lengths, or one operand
+/// is a prefix of the other.  The `*_same_len_or_prefix` obligations restrict the ordering check to
+/// these inputs, so that an ordering that compares lengths first (finding D3) does not hide other
+/// defects of the same function behind the same failing obligation.
+fn same_len_or_prefix_by<T>(a: &[T], b: &[T], eq: fn(&T, &T) -> bool) -> bool {
+    if a.len() == b.len() {
+        return true;
+    }
+    let mut i = 0;
+    while i < a.len() && i < b.len() {
+        if !eq(&a[i], &b[i]) {
+            return false;
+        }
+        i += 1;
+    }
+    true
+}
+fn same_len_or_prefix<T: PartialEq>(a: &[T], b: &[T]) -> bool {
+    same_len_or_prefix_by(a, b, |x, y| x == y)
+}
+
 /// the element comparison is std's `Ord::cmp` of the element type
 fn ref_lex_cmp<T: Ord>(a: &[T], b: &[T]) -> Ordering {
     ref_lex_cmp_by(a, b, |x, y| x.cmp(y))
@@ -74,6 +95,12 @@ fn ref_str_eq(a: &&str, b: &&str) -> bool {
 }
 fn ref_str_cmp(a: &&str, b: &&str) -> Ordering {
     ref_lex_cmp(a.as_bytes(), b.as_bytes())
+}
+fn item_bytes_str<'a>(x: &&'a str) -> &'a [u8] {
+    x.as_bytes()
+}
+fn item_bytes_bytes<'a>(x: &&'a [u8]) -> &'a [u8] {
+    x
 }
 fn ref_bytes_eq(a: &&[u8], b: &&[u8]) -> bool {
     ref_eq(a, b)
@@ -197,21 +224,22 @@ macro_rules! c16_nonzero {
                 };
                 let e_eq = l == r;
                 let e_cmp = Ord::cmp(&l, &r);
-                chk!(s, nc::$eq(l, r) == e_eq, "C16.eq_nonzero.eq_std");
-                chk!(s, nc::$cmp(l, r) == e_cmp, "C16.cmp_nonzero.eq_ord");
-                chk!(s, const_eq!(l, r) == e_eq, "C16.const_eq.nonzero");
-                chk!(s, const_cmp!(l, r) == e_cmp, "C16.const_cmp.nonzero");
                 let lo: Option<$nz> = opt(s, l);
                 let ro: Option<$nz> = opt(s, r);
                 let o_eq = lo == ro;
                 let o_cmp = Ord::cmp(&lo, &ro);
-                chk!(s, nc::$eqo(lo, ro) == o_eq, "C16.eq_option_nonzero.eq_std");
-                chk!(s, nc::$cmpo(lo, ro) == o_cmp, "C16.cmp_option_nonzero.eq_ord");
-                chk!(s, const_eq!(lo, ro) == o_eq, "C16.const_eq.option_nonzero");
-                chk!(s, const_cmp!(lo, ro) == o_cmp, "C16.const_cmp.option_nonzero");
+                // witnesses first: a failed obligation cuts the paths behind it (Kani: assert, then assume)
                 cov!(s, e_cmp == Less && o_cmp == Greater, "C16.cover.nonzero_less_but_option_greater");
                 cov!(s, e_cmp == Greater && lo.is_some() && ro.is_some(), "C16.cover.nonzero_greater_some_some");
                 cov!(s, a == <$t>::MAX && b == <$t>::MIN.wrapping_add((<$t>::MIN == 0) as $t), "C16.cover.nonzero_extremes");
+                chk!(s, nc::$eq(l, r) == e_eq, "C16.eq_nonzero.eq_std");
+                chk!(s, const_eq!(l, r) == e_eq, "C16.const_eq.nonzero");
+                chk!(s, nc::$eqo(lo, ro) == o_eq, "C16.eq_option_nonzero.eq_std");
+                chk!(s, const_eq!(lo, ro) == o_eq, "C16.const_eq.option_nonzero");
+                chk!(s, nc::$cmp(l, r) == e_cmp, "C16.cmp_nonzero.eq_ord");
+                chk!(s, const_cmp!(l, r) == e_cmp, "C16.const_cmp.nonzero");
+                chk!(s, nc::$cmpo(lo, ro) == o_cmp, "C16.cmp_option_nonzero.eq_ord");
+                chk!(s, const_cmp!(lo, ro) == o_cmp, "C16.const_cmp.option_nonzero");
             }
         }
     };
@@ -243,20 +271,21 @@ macro_rules! c16_range {
                 let l: Range<$t> = a..b;
                 let r: Range<$t> = c..d;
                 let e = l == r;
+                let li: RangeInclusive<$t> = a..=b;
+                let ri: RangeInclusive<$t> = c..=d;
+                let ei = li == ri;
+                // witnesses first: a failed obligation cuts the paths behind it (Kani: assert, then assume)
+                cov!(s, e && a > b, "C16.cover.range_equal_inverted");
+                cov!(s, a == c && b != d, "C16.cover.range_same_start_other_end");
+                cov!(s, a != c && b == d, "C16.cover.range_other_start_same_end");
                 chk!(s, rc::$eqr(&l, &r) == e, "C16.eq_range.eq_std");
                 chk!(s, const_eq!(l, r) == e, "C16.const_eq.range");
                 chk!(s, const_eq_for!(range; l, r) == e, "C16.const_eq_for.range_default");
                 chk!(s, const_eq_for!(range; l, r, |x, y| *x == *y) == e, "C16.const_eq_for.range_closure2");
-                let li: RangeInclusive<$t> = a..=b;
-                let ri: RangeInclusive<$t> = c..=d;
-                let ei = li == ri;
                 chk!(s, rc::$eqri(&li, &ri) == ei, "C16.eq_rangeinc.eq_std");
                 chk!(s, const_eq!(li, ri) == ei, "C16.const_eq.rangeinc");
                 chk!(s, const_eq_for!(range_inclusive; li, ri) == ei, "C16.const_eq_for.rangeinc_default");
                 chk!(s, const_eq_for!(range_inclusive; li, ri, |x, y| **x == **y) == ei, "C16.const_eq_for.rangeinc_closure2");
-                cov!(s, e && a > b, "C16.cover.range_equal_inverted");
-                cov!(s, a == c && b != d, "C16.cover.range_same_start_other_end");
-                cov!(s, a != c && b == d, "C16.cover.range_other_start_same_end");
             }
         }
     };
@@ -281,17 +310,21 @@ harness! {
         let r = any_ordering(s);
         let e_eq = l == r;
         let e_cmp = Ord::cmp(&l, &r);
-        chk!(s, oc::eq_ordering(l, r) == e_eq, "C16.eq_ordering.eq_std");
-        chk!(s, oc::cmp_ordering(l, r) == e_cmp, "C16.cmp_ordering.eq_ord");
-        chk!(s, const_eq!(l, r) == e_eq, "C16.const_eq.ordering");
-        chk!(s, const_cmp!(l, r) == e_cmp, "C16.const_cmp.ordering");
         let lo = opt(s, l);
         let ro = opt(s, r);
         let o_eq = lo == ro;
         let o_cmp = Ord::cmp(&lo, &ro);
+        // witnesses first: a failed obligation cuts the paths behind it (Kani: assert, then assume)
+        cov!(s, l == Greater && r == Less, "C16.cover.ordering_greater_less");
+        cov!(s, l == Less && r == Equal && lo.is_some() && ro.is_some(), "C16.cover.ordering_less_equal");
+        cov!(s, lo.is_none() && ro == Some(Less), "C16.cover.ordering_none_some");
+        chk!(s, oc::eq_ordering(l, r) == e_eq, "C16.eq_ordering.eq_std");
+        chk!(s, const_eq!(l, r) == e_eq, "C16.const_eq.ordering");
         chk!(s, oc::eq_option_ordering(lo, ro) == o_eq, "C16.eq_option_ordering.eq_std");
-        chk!(s, oc::cmp_option_ordering(lo, ro) == o_cmp, "C16.cmp_option_ordering.eq_ord");
         chk!(s, const_eq!(lo, ro) == o_eq, "C16.const_eq.option_ordering");
+        chk!(s, oc::cmp_ordering(l, r) == e_cmp, "C16.cmp_ordering.eq_ord");
+        chk!(s, const_cmp!(l, r) == e_cmp, "C16.const_cmp.ordering");
+        chk!(s, oc::cmp_option_ordering(lo, ro) == o_cmp, "C16.cmp_option_ordering.eq_ord");
         chk!(s, const_cmp!(lo, ro) == o_cmp, "C16.const_cmp.option_ordering");
         let (p, q) = (PhantomData::<u16>, PhantomData::<u16>);
         chk!(s, oc::eq_phantomdata(p, q) == (p == q), "C16.eq_phantomdata.eq_std");
@@ -300,9 +333,6 @@ harness! {
         let (pp, qq) = (PhantomPinned, PhantomPinned);
         chk!(s, oc::eq_phantompinned(pp, qq) == (pp == qq), "C16.eq_phantompinned.eq_std");
         chk!(s, oc::cmp_phantompinned(pp, qq) == Ord::cmp(&pp, &qq), "C16.cmp_phantompinned.eq_ord");
-        cov!(s, l == Greater && r == Less, "C16.cover.ordering_greater_less");
-        cov!(s, l == Less && r == Equal && lo.is_some() && ro.is_some(), "C16.cover.ordering_less_equal");
-        cov!(s, lo.is_none() && ro == Some(Less), "C16.cover.ordering_none_some");
     }
 }
 
@@ -334,7 +364,7 @@ macro_rules! c16_slice {
                 cov!(s, ll == 3 && e_eq, "C16.cover.slice_equal_len3");
                 cov!(s, ll == 0 && rl == 0 && lo.is_some() && ro.is_none(), "C16.cover.slice_empty_some_vs_none");
                 // every obligation is checked on its own selector value, so that a failing one does not mask the others
-                let sel = s.upto(10);
+                let sel = s.upto(12);
                 let k_eq: bool = $eq(l, r);
                 let k_cmp: Ordering = $cmp(l, r);
                 chk!(s, sel != 0 || (k_eq == e_eq), "C16.eq_slice.eq_std");
@@ -349,6 +379,8 @@ macro_rules! c16_slice {
                 chk!(s, sel != 8 || (const_cmp!(la, ra) == ref_lex_cmp(&la, &ra)), "C16.const_cmp.array");
                 chk!(s, sel != 9 || ($cmpo(lo, ro) == o_cmp), "C16.cmp_option_slice.eq_ord");
                 chk!(s, sel != 10 || (const_cmp!(lo, ro) == o_cmp), "C16.const_cmp.option_slice");
+                chk!(s, sel != 11 || !same_len_or_prefix(l, r) || (k_cmp == e_cmp), "C16.cmp_slice.eq_ord_same_len_or_prefix");
+                chk!(s, sel != 12 || (lo.is_some() && ro.is_some() && !same_len_or_prefix(l, r)) || ($cmpo(lo, ro) == o_cmp), "C16.cmp_option_slice.eq_ord_none_arms_same_len_or_prefix");
             }
         }
     };
@@ -441,7 +473,7 @@ fn bool_slice(bits: usize) -> [bool; 3] {
 fn slice_bool_enum<S: Src>(s: &mut S, max: usize) {
     use konst::slice::cmp as sc;
     // okN: obligation N held on every pair so far
-    let (mut ok0, mut ok1, mut ok2, mut ok3, mut ok4, mut ok5, mut ok6) = (true, true, true, true, true, true, true);
+    let (mut ok0, mut ok1, mut ok2, mut ok3, mut ok4, mut ok5, mut ok6, mut ok9) = (true, true, true, true, true, true, true, true);
     let mut ll = 0;
     while ll <= max {
         let mut rl = 0;
@@ -464,6 +496,7 @@ fn slice_bool_enum<S: Src>(s: &mut S, max: usize) {
                     ok4 &= k_cmp == e_cmp;
                     ok5 &= const_cmp!(l, r) == e_cmp;
                     ok6 &= sc::cmp_option_slice_bool(Some(l), Some(r)) == e_cmp;
+                    ok9 &= !same_len_or_prefix(l, r) || k_cmp == e_cmp;
                     rbits += 1;
                 }
                 lbits += 1;
@@ -477,7 +510,7 @@ fn slice_bool_enum<S: Src>(s: &mut S, max: usize) {
     let ok8 = sc::cmp_option_slice_bool(None, Some(e)) == Less && sc::cmp_option_slice_bool(Some(e), None) == Greater && sc::cmp_option_slice_bool(None, None) == Equal;
     cov!(s, ref_lex_cmp(&[true][..], &[false, false][..]) == Greater, "C16.cover.slice_bool_enumeration_done");
     // every obligation on its own selector value, so that a failing one does not mask the others
-    let sel = s.upto(8);
+    let sel = s.upto(9);
     chk!(s, sel != 0 || ok0, "C16.eq_slice_bool.eq_std");
     chk!(s, sel != 1 || ok1, "C16.const_eq.slice_bool");
     chk!(s, sel != 2 || ok2, "C16.eq_option_slice_bool.eq_std");
@@ -487,6 +520,7 @@ fn slice_bool_enum<S: Src>(s: &mut S, max: usize) {
     chk!(s, sel != 6 || ok6, "C16.cmp_option_slice_bool.eq_ord");
     chk!(s, sel != 7 || ok7, "C16.eq_option_slice_bool.none_arms");
     chk!(s, sel != 8 || ok8, "C16.cmp_option_slice_bool.none_arms");
+    chk!(s, sel != 9 || ok9, "C16.cmp_slice_bool.eq_ord_same_len_or_prefix");
 }
 
 harness! {
@@ -579,7 +613,7 @@ macro_rules! c16_nested_eq {
 }
 
 macro_rules! c16_nested_cmp {
-    ($name:ident, $kind:ident, $e:ty, $eq:ident, $cmp:ident, $cmpo:ident, $ref_eq:ident, $ref_cmp:ident) => {
+    ($name:ident, $kind:ident, $e:ty, $eq:ident, $cmp:ident, $cmpo:ident, $ref_eq:ident, $ref_cmp:ident, $bytes:ident) => {
         harness! {
             /// kind=bounded tier=quick bound="two slices of <=2 items each, every item a valid UTF-8 string / arbitrary byte slice of <=2 bytes (all length combinations at both levels); Option operands None/Some"
             #[kani::unwind(6)]
@@ -600,13 +634,19 @@ macro_rules! c16_nested_cmp {
                 cov!(s, ll == 2 && e_cmp == Equal && la[1].len() == 2, "C16.cover.nested_cmp_equal_len2");
                 cov!(s, lo.is_some() && ro.is_none() && ll == 0, "C16.cover.nested_some_empty_vs_none");
                 // every obligation is checked on its own selector value, so that a failing one does not mask the others
-                let sel = s.upto(4);
+                let sel = s.upto(6);
                 let k_cmp = sc::$cmp(l, r);
                 chk!(s, sel != 0 || ((k_cmp == Equal) == sc::$eq(l, r)), "C16.cmp_slice_nested.equal_iff_eq");
                 chk!(s, sel != 1 || (k_cmp == e_cmp), "C16.cmp_slice_nested.eq_ord");
                 chk!(s, sel != 2 || (const_cmp!(l, r) == e_cmp), "C16.const_cmp.slice_nested");
                 chk!(s, sel != 3 || (sc::$cmpo(lo, ro) == o_cmp), "C16.cmp_option_slice_nested.eq_ord");
                 chk!(s, sel != 4 || (const_cmp!(lo, ro) == o_cmp), "C16.const_cmp.option_slice_nested");
+                // items of equal length or prefix-related, and the outer slices too: "lengths first" cannot matter at either level
+                let d3_free = same_len_or_prefix_by(l, r, $ref_eq)
+                    && (ll < 1 || rl < 1 || same_len_or_prefix($bytes(&la[0]), $bytes(&ra[0])))
+                    && (ll < 2 || rl < 2 || same_len_or_prefix($bytes(&la[1]), $bytes(&ra[1])));
+                chk!(s, sel != 5 || !d3_free || (k_cmp == e_cmp), "C16.cmp_slice_nested.eq_ord_same_len_or_prefix");
+                chk!(s, sel != 6 || (lo.is_some() && ro.is_some() && !d3_free) || (sc::$cmpo(lo, ro) == o_cmp), "C16.cmp_option_slice_nested.eq_ord_none_arms_same_len_or_prefix");
             }
         }
     };
@@ -630,8 +670,8 @@ macro_rules! c16_nested_inputs (
 c16_nested_eq! {c16_slice_str_eq, str, &str, eq_slice_str, eq_option_slice_str, ref_str_eq, ref_str_cmp}
 c16_nested_eq! {c16_slice_bytes_eq, bytes, &[u8], eq_slice_bytes, eq_option_slice_bytes, ref_bytes_eq, ref_bytes_cmp}
 
-c16_nested_cmp! {c16_slice_str_cmp, str, &str, eq_slice_str, cmp_slice_str, cmp_option_slice_str, ref_str_eq, ref_str_cmp}
-c16_nested_cmp! {c16_slice_bytes_cmp, bytes, &[u8], eq_slice_bytes, cmp_slice_bytes, cmp_option_slice_bytes, ref_bytes_eq, ref_bytes_cmp}
+c16_nested_cmp! {c16_slice_str_cmp, str, &str, eq_slice_str, cmp_slice_str, cmp_option_slice_str, ref_str_eq, ref_str_cmp, item_bytes_str}
+c16_nested_cmp! {c16_slice_bytes_cmp, bytes, &[u8], eq_slice_bytes, cmp_slice_bytes, cmp_option_slice_bytes, ref_bytes_eq, ref_bytes_cmp, item_bytes_bytes}
 
 // ---------------------------------------------------------------------------
 // const_eq_for!/const_cmp_for!(slice; ..) in all four comparator forms
@@ -653,7 +693,7 @@ harness! {
         cov!(s, ll == 2 && rl == 3 && e_cmp == Less && la[0] == ra[0] && la[1] == ra[1], "C16.cover.cmp_for_proper_prefix");
         cov!(s, ll == 3 && e_eq, "C16.cover.cmp_for_equal_len3");
         // every obligation is checked on its own selector value, so that a failing one does not mask the others
-        let sel = s.upto(8);
+        let sel = s.upto(12);
         chk!(s, sel != 0 || (const_eq_for!(slice; l, r) == e_eq), "C16.const_eq_for.slice_default");
         chk!(s, sel != 1 || (const_eq_for!(slice; l, r, |a, b| *a == *b) == e_eq), "C16.const_eq_for.slice_closure2");
         chk!(s, sel != 2 || (const_eq_for!(slice; l, r, |a| *a) == e_eq), "C16.const_eq_for.slice_key");
@@ -663,6 +703,10 @@ harness! {
         chk!(s, sel != 6 || ({ let c: Ordering = const_cmp_for!(slice; l, r, |a| *a); c } == e_cmp), "C16.const_cmp_for.slice_key");
         chk!(s, sel != 7 || ({ let c: Ordering = const_cmp_for!(slice; l, r, cmp_u8_ref); c } == e_cmp), "C16.const_cmp_for.slice_fn");
         chk!(s, sel != 8 || (({ let c: Ordering = const_cmp_for!(slice; l, r, |a, b| konst::primitive::cmp::cmp_u8(*a, *b)); c } == Equal) == e_eq), "C16.const_cmp_for.slice_equal_iff_eq");
+        chk!(s, sel != 9 || !same_len_or_prefix(l, r) || ({ let c: Ordering = const_cmp_for!(slice; l, r); c } == e_cmp), "C16.const_cmp_for.slice_default_same_len_or_prefix");
+        chk!(s, sel != 10 || !same_len_or_prefix(l, r) || ({ let c: Ordering = const_cmp_for!(slice; l, r, |a, b| konst::primitive::cmp::cmp_u8(*a, *b)); c } == e_cmp), "C16.const_cmp_for.slice_closure2_same_len_or_prefix");
+        chk!(s, sel != 11 || !same_len_or_prefix(l, r) || ({ let c: Ordering = const_cmp_for!(slice; l, r, |a| *a); c } == e_cmp), "C16.const_cmp_for.slice_key_same_len_or_prefix");
+        chk!(s, sel != 12 || !same_len_or_prefix(l, r) || ({ let c: Ordering = const_cmp_for!(slice; l, r, cmp_u8_ref); c } == e_cmp), "C16.const_cmp_for.slice_fn_same_len_or_prefix");
     }
 }
 
@@ -690,15 +734,15 @@ harness! {
         let (lb, rb) = (s.i8(), s.i8());
         let l = C16Pair(s.u32(), opt(s, lb));
         let r = C16Pair(s.u32(), opt(s, rb));
-        chk!(s, const_eq!(l, r) == (l == r), "C16.const_eq.impl_cmp_type");
-        chk!(s, const_cmp!(l, r) == Ord::cmp(&l, &r), "C16.const_cmp.impl_cmp_type");
-        chk!(s, const_cmp!(&l, &r) == Ord::cmp(&l, &r), "C16.const_cmp.ref_impl_cmp_type");
         let (lo, ro) = (Some(l), opt(s, r));
-        chk!(s, const_eq_for!(option; lo, ro) == (lo == ro), "C16.const_eq_for.option_impl_cmp_type");
-        chk!(s, const_cmp_for!(option; lo, ro) == Ord::cmp(&lo, &ro), "C16.const_cmp_for.option_impl_cmp_type");
         cov!(s, l.0 == r.0 && l.1 == Some(1) && r.1 == Some(-1), "C16.cover.impl_cmp_second_field_decides");
         cov!(s, l.0 > r.0 && l.1.is_none() && r.1.is_some(), "C16.cover.impl_cmp_first_field_decides");
         cov!(s, l == r, "C16.cover.impl_cmp_equal");
+        chk!(s, const_eq!(l, r) == (l == r), "C16.const_eq.impl_cmp_type");
+        chk!(s, const_eq_for!(option; lo, ro) == (lo == ro), "C16.const_eq_for.option_impl_cmp_type");
+        chk!(s, const_cmp!(l, r) == Ord::cmp(&l, &r), "C16.const_cmp.impl_cmp_type");
+        chk!(s, const_cmp!(&l, &r) == Ord::cmp(&l, &r), "C16.const_cmp.ref_impl_cmp_type");
+        chk!(s, const_cmp_for!(option; lo, ro) == Ord::cmp(&lo, &ro), "C16.const_cmp_for.option_impl_cmp_type");
     }
 }
 
@@ -726,6 +770,25 @@ harness! {
         chk!(s, true, "C16.assertc.no_panic_when_condition_holds");
         cov!(s, l == r && l == 255, "C16.cover.assertc_eq_pass");
         cov!(s, l != r, "C16.cover.assertc_ne_pass");
+    }
+}
+
+harness! {
+    /// kind=bounded tier=quick bound="4 concrete operand pairs per macro on which the asserted condition holds (u8, bool), selected symbolically; unwinding deep enough to reach a (wrong) panic, so that a spurious panic is a violation and not an unwinding failure"
+    #[kani::unwind(45)]
+    fn c16_assertc_pass_concrete(s) {
+        match s.upto(7) {
+            0 => assertc_eq!(0u8, 0u8),
+            1 => assertc_eq!(255u8, 255u8),
+            2 => assertc_eq!(true, true),
+            3 => assertc_eq!(42u8, 42u8),
+            4 => assertc_ne!(0u8, 1u8),
+            5 => assertc_ne!(255u8, 0u8),
+            6 => assertc_ne!(true, false),
+            _ => assertc_ne!(7u8, 200u8),
+        }
+        chk!(s, true, "C16.assertc.no_panic_when_condition_holds_concrete");
+        cov!(s, true, "C16.cover.assertc_pass_concrete_end_reached");
     }
 }
 
